@@ -155,6 +155,40 @@ func loadKnown(path string) ([]knownFinding, error) {
 	return out, sc.Err()
 }
 
+// Verdict applies floors and the known-findings file and reports whether the run fails, and the first failing key
+// (used by the in-process self-test; writes nothing).
+func (r *R) Verdict(verifDir string) (fail bool, first string) {
+	counts := map[string]int{}
+	for _, o := range r.Obs {
+		if o.Status != Info {
+			counts[o.Rule]++
+		}
+	}
+	known, _ := loadKnown(verifDir + "/known_findings.txt")
+	for _, o := range r.Obs {
+		switch o.Status {
+		case Undecided:
+			return true, o.Rule
+		case Violation:
+			isKnown := false
+			for _, k := range known {
+				if k.Prop == r.Prop && k.Key == o.Key() {
+					isKnown = true
+				}
+			}
+			if !isKnown {
+				return true, o.Rule
+			}
+		}
+	}
+	for _, id := range r.ruleSeq {
+		if counts[id] < r.floors[id] {
+			return true, id + " (floor)"
+		}
+	}
+	return false, ""
+}
+
 // ---------------------------------------------------------------------------
 // finishing a run: floors, evidence, exit code
 
